@@ -9,6 +9,7 @@ def setup():
     t0 = time.time()
     build_harness(False)
     build_harness(True)
+    build_harness("nool")
     # parse every module
     bad = 0
     for f in sorted(os.listdir(SPEC)):
@@ -82,6 +83,10 @@ CHECK_DEADLOCK FALSE
     for w in rc.tagged.get("WITNESS", []):
         seen |= set(json.loads(w))
     needed = {"init", "text", "peek", "bangpeek", "with", "bang", "stutter", "partial"} | ({"io"} if faults else set())
+    if frag in ("doctype", "comment", "comment2", "cdata"):      # focused spaces exercise one construct kind
+        needed -= {"with"}
+    elif frag in ("pi", "tag"):
+        needed -= {"bang", "bangpeek"}
     if needed - seen:
         raise ToolError(f"vacuous model: never reached: {needed - seen}")
     r = tlc("MC_Source", cfg, name=name, timeout=timeout)
@@ -191,7 +196,11 @@ def c01(acc):
     for mode, k in (("doctype", 5 if q else 6), ("comment", 5 if q else 7), ("cdata", 5 if q else 7), ("pi", 5 if q else 7), ("tag", 4 if q else 5)):
         _, pf = mc_reader(acc, k, "neutral", ["Inv_RefMatch", "Inv_Tiling"], frag=mode, name="MC_Reader-" + mode)
         replay_reader(acc, pf, "slice")
+    # the property speaks of "the pull reader": the buffered and async sources implement the same scans separately
+    # (their chunk-level behaviour is C02's subject; here: fixed piece sizes and all cuts of short inputs)
+    replay_reader(acc, p2, "chunks", extra=["--max-all-cuts", 7, "--stride", 5 if q else 2])
     trace_reader(acc, 400 if q else 3000, "doc,mut,rand,corpus", "plain", sources="slice", max_len=600 if q else 4000)
+    trace_reader(acc, 200 if q else 2000, "doc,mut,corpus", "plain", sources="all", max_len=400 if q else 3000, seed_off=4)
     return acc.finish()
 
 
@@ -209,6 +218,12 @@ def c02(acc):
     replay_reader(acc, p, "chunks", extra=["--max-all-cuts", 9 if q else 12])
     if not q:
         replay_reader(acc, p, "chunks", extra=["--max-all-cuts", 10], enc=True)
+    # construct-focused spaces: the carries of the per-construct scanners (quote state, '?' flag, DOCTYPE balance, split terminators)
+    # under every cut per refill in the model and under all one- and two-cut deliveries (plus fixed sizes) on the real sources
+    for mode, k in (("doctype", 2 if q else 4), ("comment", 3 if q else 5), ("comment2", 4 if q else 6), ("cdata", 3 if q else 5), ("pi", 3 if q else 5), ("tag", 3 if q else 4)):
+        mc_source(acc, k, faults=False, frag=mode, name="MC_Source-" + mode)
+        _, pf = mc_reader(acc, k, "default", ["Inv_RefMatch"], frag=mode, name="MC_Reader-c02" + mode)
+        replay_reader(acc, pf, "chunks", extra=["--max-all-cuts", 9 if q else 11, "--pair-cuts", 40])
     trace_reader(acc, 300 if q else 3000, "doc,mut,rand,corpus,small", "plain", sources="all", max_len=500 if q else 3000)
     trace_source(acc, 300 if q else 3000, max_len=200 if q else 1500)
     return acc.finish()
@@ -224,6 +239,11 @@ def c18(acc):
     mc_source(acc, 2 if q else 3, faults=True, name="MC_Source-fault")
     _, p = mc_reader(acc, 2, "default" if q else "cover", ["Inv_RefMatch"], name="MC_Reader-c18")
     replay_reader(acc, p, "faults")
+    # construct-focused spaces: a fault while a scanner carry (quote state, '?' flag, DOCTYPE balance, split terminator) is live
+    for mode, k in (("doctype", 2 if q else 3), ("comment2", 3 if q else 5), ("cdata", 2 if q else 4), ("pi", 2 if q else 4), ("tag", 2 if q else 3)):
+        mc_source(acc, k, faults=True, frag=mode, name="MC_Source-fault-" + mode)
+        _, pf = mc_reader(acc, k, "default", ["Inv_RefMatch"], frag=mode, name="MC_Reader-c18" + mode)
+        replay_reader(acc, pf, "faults")
     trace_reader(acc, 400 if q else 4000, "doc,mut,corpus,small", "faults", sources="all", max_len=300 if q else 2000)
     trace_source(acc, 300 if q else 3000, max_len=200 if q else 1500)
     return acc.finish("model_checking")
@@ -241,6 +261,7 @@ def c03(acc):
     replay_reader(acc, p, "slice", enc=True)
     _, p2 = mc_reader(acc, 2, "all", ["Inv_Total"], name="MC_Reader-c03all")
     replay_reader(acc, p2, "chunks", extra=["--max-all-cuts", 6, "--stride", 4])
+    replay_reader(acc, p2, "slice")      # incl. the namespace-aware reader (own bookkeeping per Start/End, e.g. on unmatched end tags)
     trace_reader(acc, 500 if q else 5000, "rand,small,mut,corpus", "flips", sources="all", max_len=300 if q else 2000)
     trace_reader(acc, 300 if q else 3000, "rand,small,mut", "mix", sources="all", max_len=200, enc=True, seed_off=1)
     return acc.finish()
@@ -263,7 +284,12 @@ def c08(acc):
         _, pf = mc_reader(acc, k, "neutral", ["Inv_Tiling", "Inv_RefMatch"], frag=mode, name="MC_Reader-c08" + mode)
         replay_reader(acc, pf, "slice")
         replay_reader(acc, pf, "roundtrip")
+    # raw reads through Reader::stream() between events: the position moves by exactly the bytes handed out
+    _, ps = mc_ops(acc, 2 if q else 3, 0, 0, "four", [], ["Inv_StreamTiling"], "MC_Ops-c08stream", streams=2)
+    replay_reader(acc, ps, "slice", extra=["--stride", 4 if q else 1])
+    replay_reader(acc, ps, "chunks", extra=["--max-all-cuts", 0, "--stride", 16 if q else 2])
     trace_reader(acc, 300 if q else 3000, "doc,corpus,mut", "plain", sources="all", max_len=800 if q else 6000)
+    trace_reader(acc, 200 if q else 2000, "doc,corpus,mut,small", "raw", sources="all", max_len=300 if q else 2000, seed_off=2)
     return acc.finish()
 
 
@@ -281,16 +307,28 @@ def c16(acc):
     # hyphen runs inside comments under check_comments, end-tag blanks under trim_markup_names, blanks around text under the trims
     _, p3 = mc_reader(acc, 6 if q else 8, "cover", ["Inv_RefMatch"], frag="comment2", name="MC_Reader-c16comment")
     replay_reader(acc, p3, "slice")
+    # the switches are per-reader state that other calls touch: read_to_end*/read_text switch trimming off while they skip and
+    # must leave every option as documented afterwards (also when they fail with a recoverable error and reading goes on);
+    # toggles between calls take effect from the next call on
+    _, p4 = mc_ops(acc, 3, 0, 1, "trim", [], ["Inv_ReadRef", "Inv_SkipRef"], "MC_Ops-c16skip")
+    replay_reader(acc, p4, "slice")
+    replay_reader(acc, p4, "chunks", extra=["--max-all-cuts", 0, "--stride", 3 if q else 1])
+    _, p5 = mc_ops(acc, 2 if q else 3, 2, 0, "trim", ["tts", "tte", "eee", "cc"], ["Inv_ReadRef"], "MC_Ops-c16flip")
+    replay_reader(acc, p5, "slice", extra=["--stride", 2 if q else 1])
+    # the buffered and async sources implement the trims separately from the slice source
+    replay_reader(acc, p, "chunks", extra=["--max-all-cuts", 7, "--stride", 5 if q else 2])
     trace_reader(acc, 400 if q else 4000, "doc,mut,corpus", "plain", sources="all", max_len=500 if q else 3000)
+    trace_reader(acc, 200 if q else 2000, "doc,mut,corpus", "skips", sources="all", max_len=300 if q else 2000, seed_off=3)
     return acc.finish()
 
 
-def mc_ops(acc, L, flips, skips, init, keys, invs, name, emit=True, timeout=2500):
+def mc_ops(acc, L, flips, skips, init, keys, invs, name, emit=True, timeout=2500, streams=0):
     cfg = f"""SPECIFICATION Spec
 CONSTANTS
   L = {L}
   MaxFlips = {flips}
   MaxSkips = {skips}
+  MaxStreams = {streams}
   FlipKeys = {{{', '.join('"%s"' % k for k in keys)}}}
   InitCfgs = "{init}"
   KnownDevs = {devs_tla()}
@@ -303,11 +341,11 @@ CHECK_DEADLOCK FALSE
     tiny = tiny[:tiny.index("INVARIANTS")] + "INVARIANTS Inv_Witness\nCHECK_DEADLOCK FALSE\n"
     rc = tlc("MC_ReaderOps", tiny, name=name + "-wit", timeout=600, tags=("WITNESS",))
     seen = {json.loads(w)[0] for w in rc.tagged.get("WITNESS", [])}
-    needed = {"read"} | ({"flip"} if flips else set()) | ({"skip"} if skips else set())
+    needed = {"read"} | ({"flip"} if flips else set()) | ({"skip"} if skips else set()) | ({"stream"} if streams else set())
     if needed - seen:
         raise ToolError(f"vacuous model: operations never taken: {needed - seen}")
     r = tlc("MC_ReaderOps", cfg, name=name, timeout=timeout)
-    acc.add_tlc(r, f"A:MC_ReaderOps L={L} flips<={flips} skips<={skips} init={init} keys={','.join(keys)}")
+    acc.add_tlc(r, f"A:MC_ReaderOps L={L} flips<={flips} skips<={skips} streams<={streams} init={init} keys={','.join(keys)}")
     path = None
     if emit:
         path = os.path.join(work_dir("beh-" + name), "behaviours.ndjson")
@@ -669,6 +707,8 @@ def c14(acc):
     de_replay(acc, ps, "soup", "B:token soups: from_str vs from_reader (piece sizes 1,2,3,7)", extra=["--sizes", "1,2,3,7"])
     _, pr = mc_de(acc, "rewrite", 1, ["F02", "F07", "F16"] if q else RT_TYPES, "MC_De-c14rw")
     de_replay(acc, pr, "rewrite", "B:rewritten family documents: from_str vs from_reader (piece sizes 1,2,3,7)", extra=["--sizes", "1,2,3,7"])
+    # reader level: documents with a byte-order mark in arbitrary pieces, validated against XmlRead with SniffLen (deviation C14-1)
+    trace_reader(acc, 200 if q else 2000, "doc,mut,corpus", "bom", sources="all", max_len=300 if q else 2000)
     return acc.finish()
 
 
@@ -692,8 +732,8 @@ CHECK_DEADLOCK FALSE
     return r, path
 
 
-def de_replay(acc, path, mode, leg, extra=()):
-    summ, viol, _ = harness(["de-replay", "--file", path, "--prop", acc.pid, "--out-dir", REPLAY_DIR, "--mode", mode, "--seed", SEED, *extra])
+def de_replay(acc, path, mode, leg, extra=(), flavour=False):
+    summ, viol, _ = harness(["de-replay", "--file", path, "--prop", acc.pid, "--out-dir", REPLAY_DIR, "--mode", mode, "--seed", SEED, *extra], enc=flavour)
     acc.add_harness(summ, viol, leg)
 
 
@@ -712,6 +752,10 @@ def c07(acc):
     # text runs inside an element: text / blanks / CDATA / comment / DOCTYPE / reference / end tag, up to 6 [7] pieces
     _, pt = mc_de(acc, "textrun", 5 if q else 7, ["F02"], "MC_De-textrun")
     de_replay(acc, pt, "soup", "B:text-run shapes inside an element x all target types")
+    de_replay(acc, p, "soup", "B:token soups, quick-xml built without overlapped-lists", flavour="nool")
+    # content inside an element carrying a bound xsi:nil="true" (treated as absent by the Option logic)
+    _, pn = mc_de(acc, "nil", 4 if q else 5, ["F02"], "MC_De-nil")
+    de_replay(acc, pn, "soup", "B:content under xsi:nil x all target types")
     _, p2 = mc_de(acc, "rewrite", 1, ["F05", "F15", "F22"] if q else RT_TYPES, "MC_De-bases", timeout=3000)
     summ, viol, _ = harness(["de-mutate", "--file", p2, "--prop", acc.pid, "--out-dir", REPLAY_DIR, "--seed", SEED, "--per-doc", 3 if q else 20])
     acc.add_harness(summ, viol, "C:token-level mutations and every-byte truncations of serialized values")
@@ -731,6 +775,8 @@ def c15(acc):
     types = ["F02", "F05", "F07", "F11", "F16", "F19", "F22"] if q else RT_TYPES
     _, p = mc_de(acc, "rewrite", 1, types, "MC_De-rewrite", timeout=3400)
     de_replay(acc, p, "rewrite", "B:rewritten documents deserialize to the original value", extra=["--sizes", ""])
+    # the deserializer's other build variant (feature overlapped-lists off) skips unknown subtrees with different code
+    de_replay(acc, p, "rewrite", "B:the same with a quick-xml built without overlapped-lists", extra=["--sizes", ""], flavour="nool")
     return acc.finish()
 
 
@@ -771,7 +817,8 @@ def replay(pid, path):
         p = subprocess.run([build_harness(False), "escape-rerun", "--file", path], cwd=ROOT)
         return p.returncode
     if kind == "de-replay":
-        p = subprocess.run([build_harness(False), "de-rerun", "--file", path], cwd=ROOT)
+        fl = v.get("flavour", "noenc")
+        p = subprocess.run([build_harness(False if fl == "noenc" else (True if fl == "enc" else fl)), "de-rerun", "--file", path], cwd=ROOT)
         return p.returncode
     if kind == "serde-replay":
         p = subprocess.run([build_harness(False), "serde-rerun", "--file", path], cwd=ROOT)
